@@ -350,4 +350,22 @@ def r14_9(run):
     run.floor(6)
 
 
-RULES = [("R14.1", r14_1), ("R14.5", r14_5), ("R14.6", r14_6), ("R14.7", r14_7), ("R14.8", r14_8), ("R14.9", r14_9)]
+def r14_10(run):
+    """the options in force are a function of the three layers alone: init_options, the helpers it calls and the option accessors
+    keep no state between calls (a module-level "already warned" set, a memoised result) -- shared machinery with C12 R12.8"""
+    from .c12 import hidden_state_sites
+    from ..callgraph import CallGraph
+    ix = run.index
+    cg = CallGraph(ix)
+    roots = [ix.func(PS + "." + n_) for n_ in ("init_options", "set_user_pf_options", "get_net_option", "get_net_options", "set_net_option")]
+    funcs = cg.reachable(roots)
+    sites = hidden_state_sites(ix, list(funcs.values()))
+    for f, n, what in sites:
+        run.analysed(f)
+        run.ob("%s|hidden-state|%s" % (f.short, what.split(" (")[0][:50]), False, "option resolution keeps no state between calls: " + what, run.where(f, n))
+    run.ob("option-functions|stateless", len(funcs) >= 5 and not sites,
+           "%d functions of the option resolution keep no state between calls" % len(funcs), PS)
+    run.floor(1)
+
+
+RULES = [("R14.1", r14_1), ("R14.5", r14_5), ("R14.6", r14_6), ("R14.7", r14_7), ("R14.8", r14_8), ("R14.9", r14_9), ("R14.10", r14_10)]
